@@ -41,7 +41,13 @@ impl Ctx {
             vmap: c["vmap"].as_str().unwrap_or("int").to_string(),
             unmapped: false,
             nonint: false,
-            names: (1..=n as i64).map(chrom_name).collect(),
+            // "varlen": names of very different lengths (the chromosome tree pads every key to the longest) that still sort like
+            // their index; otherwise the fixed-length chrAa, chrAb, ...
+            names: if c["names"].as_str().unwrap_or("") == "varlen" {
+                (1..=n).map(|i| format!("c{:04}{}", i, ["", "_x", "_long_name", "_a_much_longer_chromosome_name_for_padding"][i % 4])).collect()
+            } else {
+                (1..=n as i64).map(chrom_name).collect()
+            },
         }
     }
     pub fn pos_in(&self, p: i64) -> u32 {
